@@ -23,7 +23,8 @@ THEOREMS = ["C03_zone_getters_valid", "C03_zone_getters_refuse", "C03_getter_dom
             "C03_set_dhw_mode_idx_refuted", "C03_set_system_mode_valid", "C03_set_system_time_valid", "C03_set_zone_config_valid", "C03_mode_cmds_registered",
             "C03_set_dhw_params_valid", "C03_set_mix_valve_params_valid", "C03_put_temp_valid",
             "C03_set_tpi_params_valid", "C03_set_tpi_params_unchecked_refuted", "C03_put_weather_temp_valid",
-            "C03_put_co2_level_valid", "C03_put_co2_level_roundtrip", "C03_put_indoor_humidity_valid"]
+            "C03_put_co2_level_valid", "C03_put_co2_level_roundtrip", "C03_put_indoor_humidity_valid",
+            "C03_fixed_getters_valid", "C03_fixed_getters_idx", "C03_dhw_getter_idx_refuted"]
 
 CTL = "01:145038"
 
@@ -204,6 +205,7 @@ def run(ctx: Ctx) -> None:
                 ctx.violation(f"decoded-value-differs:{name}:{k}", f"{name}{args}{kwargs} -> {cmd}: decoded {k}={got!r}, asked for {v!r}", {**case, "decoded": str(payload)[:300]}, "input")
     mode_commands(ctx, built, thorough)
     param_commands(ctx, built, thorough)
+    fixed_getters(ctx, built)
     bind_commands(ctx)
     # correspondence of the modelled builders over their whole domain
     if not built:
@@ -555,6 +557,54 @@ def param_commands(ctx: Ctx, built: bool, thorough: bool) -> None:
                 bad.append(f"{kind}{a}: model payload {m_pl} decoded {m_dec}; implementation payload {pl} decoded {dec}")
     ctx.obligation("correspondence:param-commands", not bad, "correspondence", f"{len(bad)} of {total} differ; first: {bad[0][:600]}" if bad else
                    f"{total} argument combinations of set_dhw_params / set_mix_valve_params / set_tpi_params / put_sensor_temp / put_dhw_temp / put_weather_temp / put_co2_level / put_indoor_humidity: payload or refusal, the decoder's verdict and values agree")
+
+
+def fixed_getters(ctx: Ctx, built: bool) -> None:
+    """The getters with a fixed payload vs M_Command.fgetter_payload: payload or refusal and the decoder's verdict, over DHW indexes in and out of 00/01."""
+    from ramses_tx.command import Command  # noqa: PLC0415
+    from ramses_tx.message import Message  # noqa: PLC0415
+
+    names = {"FDhwMode": "get_dhw_mode", "FDhwParams": "get_dhw_params", "FDhwTemp": "get_dhw_temp", "FSchedVersion": "get_schedule_version",
+             "FLanguage": "get_system_language", "FSystemMode": "get_system_mode", "FSystemTime": "get_system_time"}
+    idxs = [0, 1, 2, 7, 15, 16, 0x20, 0xF9, 0xFA, 0xFB, 0xFC, 0xFF] + [ctx.rng.randrange(0, 256) for _ in range(4)]
+    cases, impl = [], []
+    for g, name in names.items():
+        dhw = g.startswith("FDhw")
+        for i in (idxs if dhw else [0]):
+            cases.append((g, i))
+            try:
+                cmd = getattr(Command, name)(CTL, **({"dhw_idx": i} if dhw else {}))
+            except Exception:  # noqa: BLE001
+                impl.append((None, None, None))
+                ctx.case(("fixed-getter", name, i), False, f"refused:{name}")
+                continue
+            ctx.case(("fixed-getter", name, i), True, f"built:{name}")
+            try:
+                Message._from_cmd(cmd)
+                ok = 1
+            except Exception:  # noqa: BLE001
+                ok = 9
+            impl.append((cmd.payload, ok, f"{cmd.verb}|{cmd.code}"))
+    if not built:
+        ctx.obligation("correspondence:fixed-getters", False, "correspondence", "model not built")
+        return
+    pre = ("From Coq Require Import ZArith String List Bool.\nFrom RV Require Import Py PyStr Regex GenRegex GenTables M_Codecs M_Command.\n"
+           "Import ListNotations. Open Scope Z_scope.\nSet Printing Width 1000000. Set Printing Depth 1000000.\n"
+           "Definition s2z (s : str) : list Z := map (fun c => Z.of_nat (Ascii.nat_of_ascii c)) s.\n"
+           "Definition fg (g : fgetter) (i : Z) : list (list Z) := match fgetter_payload g i with None => [[0]] | Some p => [s2z p; [if payload_ok V_RQ (fg_code g) p then 1 else 9; fg_code g]] end.\n")
+    rc, out = common.coq_eval("C03fg", {"q0": pre + "".join(f"Eval vm_compute in (fg {g} {i}).\n" for g, i in cases)}, timeout=300)["q0"]
+    rows = [eval(o.replace(";", ","), {"__builtins__": {}}) for o in re.findall(r"=\s*(\[.*?\])\s*:\s*list \(list Z\)", out, flags=re.S)]  # noqa: S307
+    bad = []
+    if rc or len(rows) != len(cases):
+        bad.append(f"rc={rc}, {len(rows)} results for {len(cases)} cases: {out[-300:]}")
+    else:
+        for (g, i), (pl, ok, key), r in zip(cases, impl, rows):
+            m = (None, None, None) if r == [[0]] else ("".join(chr(z) for z in r[0]), r[1][0], f"RQ|{r[1][1]:04X}")
+            if m != (pl, ok, key):
+                bad.append(f"{names[g]}(dhw_idx={i}): model {m}; implementation {(pl, ok, key)}")
+    ctx.obligation("correspondence:fixed-getters", not bad, "correspondence", f"{len(bad)} of {len(cases)} differ; first: {bad[0][:600]}" if bad else
+                   f"{len(cases)} calls of get_dhw_mode / get_dhw_params / get_dhw_temp (DHW indexes in and out of 00/01) / get_schedule_version / get_system_language / "
+                   "get_system_mode / get_system_time: payload or refusal, verb|code and the decoder's verdict agree")
 
 
 def bind_commands(ctx: Ctx) -> None:
